@@ -417,8 +417,10 @@ def run_unit(unit):
 
 
 def check(ctx):
-    units = [("vec", k, s) for k in GEN for s in SETTINGS]
-    units += [("tab", w, s) for w in (0, 1, 2, 9, 10, 11, 12) for s in SETTINGS]
+    settings = SETTINGS if not ctx.thorough else [None] + list(range(0, 16)) + [25, 40]
+    widths = (0, 1, 2, 9, 10, 11, 12) if not ctx.thorough else tuple(range(0, 15))
+    units = [("vec", k, s) for k in GEN for s in settings]
+    units += [("tab", w, s) for w in widths for s in settings]
     agg = core.merge_all(core.pmap(run_unit, units))
     agg.notes["bound"] = "see RULE"
     agg.notes["exhaustive"] = True
